@@ -15,6 +15,7 @@ class PatchList:
         self.patches: OrderedDict[str, Patch] = OrderedDict()
         self.default: Dict[str, str] = {}
         self.merged: List[List[str]] = []  # data for the mergePatchPairs entry
+        self.modified: Set[str] = set()  # names of patches the user declared/changed through modify()
 
     def add(self, vertices: List[Vertex], operation: Operation) -> None:
         """Create Patches from operation's patch_names"""
@@ -40,6 +41,7 @@ class PatchList:
         """Changes patch's properties"""
         patch = self.get(name)
         patch.kind = kind
+        self.modified.add(name)
 
         if settings is not None:
             patch.settings = settings
@@ -50,8 +52,8 @@ class PatchList:
 
     def clear(self) -> None:
         """Removes collected patches but leaves settings intact"""
-        # patches whose type or settings were changed by the user stay (without their sides)
-        modified = [patch for patch in self.patches.values() if patch.kind != "patch" or len(patch.settings) > 0]
+        # patches that were declared or changed by the user stay (without their sides)
+        modified = [patch for patch in self.patches.values() if patch.name in self.modified]
 
         self.patches.clear()
 
